@@ -60,6 +60,9 @@ func TestCheck(t *testing.T) {
 				if job%of != shard {
 					continue
 				}
+				// the binary's other switch that reaches the handler's construction: -verbose (half of the groups; it may
+				// only add log lines)
+				verboseFlag = job%2 == 0
 				runGroup(t, rep, probeOn, proto, method, false)
 				// the same matrix on a connection with a past: an upload with a trailer section has been forwarded on it, and it
 				// is older than the TLS handshake timeout (but younger than the read and idle timeouts)
@@ -69,9 +72,11 @@ func TestCheck(t *testing.T) {
 	}
 }
 
+var verboseFlag bool
+
 func runGroup(t *testing.T, rep *ev.Report, probeOn bool, proto, method string, aged bool) {
 	res := bubble.Run(t, func() {
-		fingerproxy.VerifSetFlags(fingerproxy.VerifFlags{Probe: probeOn, Flush: "100ms", Idle: "180s", Read: "60s", Write: "60s", TLSHandshake: "10s"})
+		fingerproxy.VerifSetFlags(fingerproxy.VerifFlags{Probe: probeOn, Verbose: verboseFlag, Flush: "100ms", Idle: "180s", Read: "60s", Write: "60s", TLSHandshake: "10s"})
 		to, _ := url.Parse("http://backend.internal:8080")
 		h := fingerproxy.VerifDefaultReverseProxyHTTPHandler(to, fingerproxy.DefaultHeaderInjectors())
 		rec := &bubble.RecBackend{Respond: func(r *bubble.RecReq) *bubble.Resp {
@@ -184,7 +189,7 @@ func runGroup(t *testing.T, rep *ev.Report, probeOn bool, proto, method string, 
 					}
 					grew := rec.Count() - before
 					wantLocal := probeOn && u.probe
-					desc := fmt.Sprintf("probe=%v %s %s %s ua=%s other=%d", probeOn, proto, method, path, u.name, len(other))
+					desc := fmt.Sprintf("probe=%v verbose=%v %s %s %s ua=%s other=%d", probeOn, verboseFlag, proto, method, path, u.name, len(other))
 					if aged {
 						desc += " (connection 11 s old, after an upload with trailers)"
 					}
